@@ -386,7 +386,7 @@ func keys(m map[string]string) []string {
 func TestC02(t *testing.T) {
 	defer isoPool.Close()
 	core.Run(t, "C02",
-		"byte strings from 5 generators (valid full-grammar programs mutated by truncation/token delete-dup-swap/dictionary insertion/byte flip/splice; token soup in one action; delimiter-biased bytes; unmutated valid; structural mistakes that must be rejected) x delimiter configurations x referenced-template sets, via Set.Parse or GetTemplate, each in an isolated worker; plus every prefix of the seed templates; non-trivial = source contains a left delimiter and is not an unmutated valid program; distinct by case hash",
+		"byte strings from 5 generators (valid full-grammar programs mutated by truncation/token delete-dup-swap/dictionary insertion/byte flip/splice; token soup in one action; delimiter-biased bytes; unmutated valid; structural mistakes that must be rejected; 1 case in 60 a library of 24-40 levels each importing the next one twice, all cached, with the page handed to Set.Parse) x template names (1 in 8 with percent signs) x delimiter configurations x referenced-template sets, via Set.Parse or GetTemplate, each in an isolated worker; plus every prefix of the seed templates; non-trivial = source contains a left delimiter and is not an unmutated valid program; distinct by case hash",
 		genC02, judgeC02)
 }
 
